@@ -159,12 +159,16 @@ def timer_must_end(tr, copts):
         return False
     if copts.get("ping_timeout"):
         return True
-    if copts.get("close_timeout", 30.0):    # None and 0 both disable it
+    ct = copts.get("close_timeout", 30.0)
+    if ct:    # None and 0 both disable it
         for e in tr.sim.log:
             if e[0] in ("send", "send_fail") and not e[2].startswith(b"GET "):
                 frames, _ = wire.decode_frames(e[2])
                 if any(f.opcode == wire.CLOSE for f in frames):
-                    return True      # a Close frame was written, or at least attempted
+                    # a Close frame was written, or at least attempted, at virtual time e[3]: the close timeout has to
+                    # have fired only if it ran out (and was noticed: one poll interval plus the longest handler delay
+                    # of the policies, 7.5 s) BEFORE the run was cut off
+                    return e[3] + ct + 2 * copts.get("poll", 5.0) + 8.0 < tr.sim.now
     return False
 
 
